@@ -3,9 +3,11 @@
 EXTENDS PbfFormatSpace, IOUtils, Json, SequencesExt
 CONSTANTS Full, Seed
 Cases == FilterCases(Full, Seed)
-ASSUME \A c \in Cases : ValidFile(c.file)
-ASSUME ndJsonSerialize(IOEnv.OUT, SetToSeq(Cases))
-ASSUME PrintT(<<"GENERATED", Cardinality(Cases)>>)
+\* (cs is bound once: TLC would rebuild the defined set at every reference)
+ASSUME \E cs \in {SetToSeq(Cases)} :
+          /\ \A i \in 1 .. Len(cs) : ValidFile(cs[i].file)
+          /\ ndJsonSerialize(IOEnv.OUT, cs)
+          /\ PrintT(<<"GENERATED", Len(cs)>>)
 VARIABLE v
 GInit == v = 0
 GNext == UNCHANGED v
